@@ -1,5 +1,5 @@
 """C05: persisted containers and checkpoints read back equal
-(spec/PersistFmt.tla + Persist.tla + PersistCkpt.tla, harness/c05_persist.cpp)"""
+(spec/PersistFmt.tla + Persist.tla + PersistCkpt.tla + PersistStream.tla + PersistCkptLife.tla, harness/c05_persist.cpp)"""
 import os, json
 import vlib
 import c05x
@@ -9,6 +9,9 @@ LEVEL = "model_checking"
 IO_INV = "RoundTrip LayoutOK Emit"
 CK_INV = "RestoredRight FileOrdered FileComplete FileLayout Emit"
 ST_INV = "ReadRight LoadRight SizeOK NoOverlap ClearedIsNew WriteAfterClear Emit"
+LF_INV = "RestoredRight OffsExact InputIsLast LayoutOK GivenOverlap Emit"
+LF_ALL = ("add", "remove", "assign", "save", "load", "clear", "restore", "restadd")
+LF_IO = ("save", "load", "clear", "restore", "restadd")          # the calls around the loaded input
 
 
 def io_cfg(kind, maxm, maxn, bh, bw, pal):
@@ -24,6 +27,18 @@ def ck_cfg(mino, maxo, cdt, cit):
 def st_cfg(steps, cdt, cit):
     return ("SPECIFICATION Spec\nCONSTANTS MaxSteps = %d CDT = %d CIT = %d\n"
             "INVARIANTS %s\nCHECK_DEADLOCK FALSE\n" % (steps, cdt, cit, ST_INV))
+
+
+def lf_cfg(steps, ops, nadd, empty, cdt, cit):
+    return ("SPECIFICATION Spec\nCONSTANTS MaxSteps = %d CDT = %d CIT = %d NAdd = %d AllowEmpty = %s\n  Ops = {%s}\n"
+            "INVARIANTS %s\nCHECK_DEADLOCK FALSE\n" % (steps, cdt, cit, nadd, "TRUE" if empty else "FALSE", ", ".join('"%s"' % o for o in ops), LF_INV))
+
+
+def lf_configs(tier):
+    """histories over ONE long-lived CheckpointControl object (spec/PersistCkptLife.tla): (steps, alphabet, NAdd, AllowEmpty, cdt, cit)"""
+    if tier == "thorough":
+        return [(5, LF_ALL, 2, False, 8, 8), (7, LF_IO, 1, False, 8, 8), (5, LF_ALL, 1, False, 4, 4), (4, LF_ALL, 1, True, 8, 8)]
+    return [(4, LF_ALL, 1, False, 8, 8), (5, LF_IO, 1, False, 8, 8), (3, LF_ALL, 2, True, 4, 4)]
 
 
 def st_configs(tier):
@@ -53,6 +68,17 @@ def ck_configs(tier):
 def generate(chk, tier):
     import concurrent.futures as cf
     jobs = []
+    # the long generators first (the pool runs 8 at a time)
+    for k, a in enumerate(st_configs(tier)):
+        name = "gen_PersistStream_%d_%d.cfg" % (os.getpid(), k)
+        with open(os.path.join(vlib.SPEC, name), "w") as f:
+            f.write(st_cfg(*a))
+        jobs.append(("PersistStream", name, "stream steps%d dt%d it%d" % a))
+    for k, a in enumerate(lf_configs(tier)):
+        name = "gen_PersistCkptLife_%d_%d.cfg" % (os.getpid(), k)
+        with open(os.path.join(vlib.SPEC, name), "w") as f:
+            f.write(lf_cfg(*a))
+        jobs.append(("PersistCkptLife", name, "life steps%d ops=%s nadd%d empty%d dt%d it%d" % (a[0], "all" if a[1] == LF_ALL else "+".join(a[1]), a[2], a[3], a[4], a[5])))
     for k, a in enumerate(io_configs(tier)):
         name = "gen_Persist_%d_%d.cfg" % (os.getpid(), k)
         with open(os.path.join(vlib.SPEC, name), "w") as f:
@@ -63,11 +89,6 @@ def generate(chk, tier):
         with open(os.path.join(vlib.SPEC, name), "w") as f:
             f.write(ck_cfg(*a))
         jobs.append(("PersistCkpt", name, "ckpt objs%d..%d dt%d it%d" % a))
-    for k, a in enumerate(st_configs(tier)):
-        name = "gen_PersistStream_%d_%d.cfg" % (os.getpid(), k)
-        with open(os.path.join(vlib.SPEC, name), "w") as f:
-            f.write(st_cfg(*a))
-        jobs.append(("PersistStream", name, "stream steps%d dt%d it%d" % a))
     cases = []
     try:
         with cf.ThreadPoolExecutor(max_workers=min(len(jobs), 8)) as ex:
@@ -94,7 +115,18 @@ def has_empty_row(c):
     return any(rp[i] == rp[i + 1] for i in range(len(rp) - 1))
 
 
+def life_ops(c):
+    return [(o["op"], o["i"], o["o"], o["s"], bool(o["add"])) for o in c["ops"]]
+
+
 def sig(c, r):
+    if c["part"] == "life":
+        why = r.get("why") or ""
+        step = why.split("/step ")[1].split(":")[0].split(" ")[1] if "/step " in why else ""
+        # loads a checkpoint that was saved with NO registered object (narrow class of the finding C05-ckpt-load-empty-stream)
+        empty = any(o["op"] == "load" and o["res"] == 1 for o in c["ops"])
+        return {"part": "life", "failing_op": step, "loads_empty_checkpoint": empty and "[load-empty-checkpoint]" in why,
+                "steps": len(c["ops"]), "cdt": c["cdt"], "outcome": r.get("outcome", "mismatch")}
     if c["part"] == "stream":
         why = r.get("why") or ""
         step = why.split("/step ")[1].split(":")[0] if "/step " in why else ""
@@ -110,6 +142,8 @@ def sig(c, r):
 
 
 def key(c):
+    if c["part"] == "life":
+        return json.dumps(["lf", c["cdt"], life_ops(c)])
     if c["part"] == "stream":
         return json.dumps(["st", c["cdt"], [(o["op"], o["arg"]) for o in c["ops"]]])
     if c["part"] == "ckpt":
@@ -118,6 +152,10 @@ def key(c):
 
 
 def nontrivial(c):
+    if c["part"] == "life":
+        # input is loaded at least twice into the one control object, or a checkpoint written by it is loaded back
+        loads = [o for o in c["ops"] if o["op"] == "load"]
+        return len(loads) >= 2 or any(o["s"] == 4 for o in loads)
     if c["part"] == "stream":
         ops = [o["op"] for o in c["ops"]]
         # the stream is reused after a clear, or a container / checkpoint is written over existing bytes after a seek
@@ -148,7 +186,11 @@ def run(chk):
     nio = sum(1 for c in cases if c["part"] == "io")
     chk.extra["io_behaviours"] = nio
     nst = sum(1 for c in cases if c["part"] == "stream")
-    chk.extra["checkpoint_behaviours"] = len(cases) - nio - nst
+    nlf = sum(1 for c in cases if c["part"] == "life")
+    chk.extra["checkpoint_behaviours"] = len(cases) - nio - nst - nlf
+    chk.extra["checkpoint_life_histories"] = nlf
+    chk.extra["checkpoint_life_calls"] = sum(len(c["ops"]) for c in cases if c["part"] == "life")
+    chk.extra["checkpoint_life_reloads"] = sum(1 for c in cases if c["part"] == "life" and nontrivial(c))
     chk.extra["stream_reuse_histories"] = nst
     chk.extra["stream_reuse_calls"] = sum(len(c["ops"]) for c in cases if c["part"] == "stream")
     chk.extra["binary_streams_parsed"] = sum(1 for c in cases if c["part"] == "io" and c["file"]["fmt"] == "bin") + sum(len(c["entries"]) for c in cases if c["part"] == "ckpt")
@@ -162,10 +204,16 @@ def run(chk):
                 "spec/PersistCkpt.tla: every subset of a 6 object palette (1..3(4) objects), every registration order, 3 identifier assignments with "
                 "identifiers that are prefixes of each other, every restore order.  spec/PersistStream.tla: every history of 5 (thorough 6) calls "
                 "write / seekg(0) / read / clear / checkpoint save / checkpoint load on ONE reused BinaryStream object (3 containers, 2 checkpoint "
-                "object sets), size, position and segment bytes compared after every call; non-trivial = container with at least one array resp. >=2 objects; "
+                "object sets), size, position and segment bytes compared after every call.  spec/PersistCkptLife.tla: every history of 4-5 "
+                "(thorough 5-7) calls add_object / remove_object / assignment to a registered object / save / load / clear_input / "
+                "restore_object(add false|true) on ONE long-lived CheckpointControl object over three given checkpoints with overlapping "
+                "identifier sets (common identifier at a different resp. the same offset, different object in each) and the checkpoint "
+                "it saved itself; after every call (and, on a second control object, only after the last call) the complete state is "
+                "observed: identifier list, bytes of a save, restore_object of EVERY identifier (the object of the LAST loaded "
+                "checkpoint, or refused in a forked child), refusal of a second load; non-trivial = container with at least one array resp. >=2 objects; "
                 "distinct = distinct (container, mode, types) resp. (registration sequence, restore sequence).  Extension: " + c05x.RULE)
     for c in [x for x in cases if x["part"] == "io"][::max(1, nio // 3)][:3] + [x for x in cases if x["part"] == "ckpt"][-1:]:
-        if c["part"] == "stream":
+        if c["part"] in ("stream", "life"):
             continue
         if c["part"] == "io":
             chk.sample({k: c[k] for k in ("kind", "m", "n", "rep", "mode", "cdt", "sdt", "sit", "file")})
@@ -174,6 +222,8 @@ def run(chk):
                         "entries": [(e["id"], e["len"]) for e in c["entries"]]})
     for c in [x for x in cases if x["part"] == "stream"][-1:]:
         chk.sample({"stream_history": [(o["op"], o["arg"], o["size"], o["pos"]) for o in c["ops"]]})
+    for c in [x for x in cases if x["part"] == "life" and nontrivial(x)][-1:]:
+        chk.sample({"checkpoint_life_history": [(o["op"], o["i"], o["s"], o["add"], "restorable", o["rst"]) for o in c["ops"]]})
     chk.assumptions = ["values are dyadic (numerators over 4): general decimal rounding of the text formats is not explored (DESIGN.md sec. 7 residue)",
                        "zlib/zfp compression modes are compiled out of the baseline build and out of scope",
                        "container round trips go through std::stringstream / std::vector<char> / BinaryStream; the file-name overloads are sampled",
